@@ -293,7 +293,7 @@ def queries(ctx, extra):
             qs.append(Query(name="cgen_" + n, harness=cgen_c, entry="h_cgen_" + n, srcs=["foam_c.c", "stdc.c"], defs=["-DV_STO_PAD=1024", "-DV_STO_NOFREE", "-DV_NO_ASSERT_STUB"],
                             object_bits=12, group="emitted C", **common))
     # literal conversion shared by all three evaluators (cfoldBCall, fintEvalBCall and the emitted C all call fiArrToSInt)
-    for n, tiers in ((5, ("quick", "thorough")), (7, ("thorough",))):
+    for n, tiers in ((5, ("quick", "thorough")), (6, ("thorough",))):     # 7 characters: no verdict in 900 s
         qs.append(Query(name="lit_ArrToSInt_%d" % n, harness="c04_literals.c", entry="h_arr2sint", srcs=["foam_c.c", "util.c", "stdc.c"],
                         defs=["-DLLEN=%d" % n, "-DV_NO_ASSERT_STUB", "-DV_NO_BUG_STUB", "-DV_STO_NOFREE"], stubs=["stubs.c", "stubs_print.c"],
                         unwind=n + 4, timeout=900, mem_gb=8, tiers=tiers, group="literal conversion",
